@@ -56,6 +56,7 @@ from __future__ import annotations
 
 import itertools
 import random
+import time
 
 from vf.gen import bags as G
 
@@ -75,7 +76,7 @@ _QUICK_COUNTERS = {
     "sample_calls": 5000, "choices_calls": 2700, "random_sample_computes": 3600, "sample_k_gt_n": 1700, "sample_k_eq_0": 750,
     "sample_0_lt_k_le_n_ok": 2500, "choices_ok": 2300, "empty_partition_cases": 900, "threads_runs": 2300, "processes_runs": 65,
     "multi_level_reduce": 2900, "subsequence_ok": 700, "same_recompute": 700, "same_rebuild": 700, "same_threads": 700,
-    "same_rebuild_threads": 700, "same_computed_with_sibling_samples": 700, "random_sample_with_siblings": 700, "same_processes": 15, "same_rebuild_processes": 15,
+    "same_rebuild_threads": 700, "same_computed_with_sibling_samples": 700, "same_threads_interleaved": 450, "random_sample_with_siblings": 700, "same_processes": 15, "same_rebuild_processes": 15,
 }
 FLOORS = {
     "quick": {"evaluations": 1800, "distinct_nontrivial": 1600, "counters": _QUICK_COUNTERS, "max_skipped_fraction": 0.1},
@@ -167,7 +168,16 @@ def _pool():
     return _POOL
 
 
+def _yielding_identity(x):
+    """Identity that hands the GIL over: put (lazily) in front of a sampling step it makes the per-partition sampling
+    generators of different threads interleave element by element."""
+    time.sleep(0)
+    return x
+
+
 def _compute(coll, sched):
+    if sched == "threads-interleaved":
+        return coll.compute(scheduler="threads", num_workers=4)
     if sched == "processes":
         return coll.compute(scheduler="processes", pool=_pool())
     return coll.compute(scheduler=sched)
@@ -364,6 +374,10 @@ def run_case(case, ctx):
         return mine
 
     runs.append(("computed-with-sibling-samples", with_siblings))
+    if len(parts) >= 2:
+        # the same sample behind a lazy, GIL-yielding map, on 4 threads: the partitions are sampled at overlapping times
+        runs.append(("threads-interleaved", lambda: _compute(bag.map(_yielding_identity).random_sample(prob, state()),
+                                                              "threads-interleaved")))
     if case.get("proc"):
         runs.append(("processes", lambda: _compute(rs, "processes")))
         runs.append(("rebuild-processes", lambda: _compute(bag.random_sample(prob, state()), "processes")))
